@@ -54,6 +54,12 @@
 // topic Hash.  BHPParse keeps `lcs` as an opaque parameter (fourth part: a total function of the
 // values of its arguments; `p, q = q, p` on its slice parameters is outside the subset).
 //
+// DHPParse (dhp.go) and BDHPParse (bdhp.go; `lcs` opaque) are topics of the same kind; their
+// `doubleHashDictionary.processSegment` uses local pointer aliases `h1, h2 := &f.h1, &f.h2`, which are
+// eliminated at source level (code_ptralias.go) before the translation.  bup.go is NOT a topic yet:
+// `bucketHash.bucket` returns a sub-slice and the bucket scan is a range loop with `continue` and
+// operations that may panic (notes/parse-translate.md §6).
+//
 // Nothing here is keyed on a function name; the per-topic data are topicsParse and ptrNonNilTopics.
 package main
 
@@ -68,6 +74,10 @@ var topicsParse = []topic{
 		fns: methods("hashParser", "Parse"), part2: true},
 	{name: "BHPParse", doc: "bhp.go: backwardHashParser.Parse (lcs is an opaque parameter); ASSUMES blk != nil",
 		fns: methods("backwardHashParser", "Parse"), opaque: []fnKey{{"", "lcs"}}, part2: true},
+	{name: "DHPParse", doc: "dhp.go: doubleHashParser.Parse (with doubleHashDictionary.processSegment and _getLE64, _getLE32, getLE64 of bytes.go); ASSUMES blk != nil",
+		fns: methods("doubleHashParser", "Parse"), part2: true},
+	{name: "BDHPParse", doc: "bdhp.go: bdhp.Parse (lcs is an opaque parameter); ASSUMES blk != nil",
+		fns: methods("bdhp", "Parse"), opaque: []fnKey{{"", "lcs"}}, part2: true},
 }
 
 func init() {
@@ -80,7 +90,7 @@ func init() {
 }
 
 // ptrNonNilTopics: the topics that ASSUME their pointer parameters are not nil (see the header).
-var ptrNonNilTopics = map[string]bool{"HPParse": true, "BHPParse": true}
+var ptrNonNilTopics = map[string]bool{"HPParse": true, "BHPParse": true, "DHPParse": true, "BDHPParse": true}
 
 // ptrNilCompare: `p == nil` / `p != nil` (either order) where p is a parameter (or the receiver) of
 // pointer type of the function being translated.  The value model has no nil pointers: outside a
